@@ -214,10 +214,14 @@ func c01BigCase(rows int) c01Case {
 func TestC01(t *testing.T) {
 	st := vlib.NewStats("C01")
 	defer st.Write(Cfg, "C01")
-	if Cfg.Replay == "" && Cfg.Shard == 0 {
+	if Cfg.Replay == "" && Cfg.Shard <= 1 {
 		rows := 1300
 		if Cfg.Tier == "thorough" {
 			rows = 3600
+		}
+		if Cfg.Shard == 1 {
+			// past the first split of a NON-root internal page (1749 rows), with flushes on the way
+			rows += 600
 		}
 		bc := c01BigCase(rows)
 		if msg := c01Run(bc, st); msg != "" {
